@@ -65,7 +65,9 @@ SPEC = {
     'json_loadb': dict(ret='ptr', alloc='json', routed=True, input_fail=True, out=(3,)),
     'json_loadf': dict(ret='ptr', alloc='json', routed=True, input_fail=True, out=(2,)),
     'json_load_file': dict(ret='ptr', alloc='json', routed=True, input_fail=True, out=(2,)),
-    'json_dumps': dict(ret='ptr', alloc='jwt', routed=True),
+    'json_dumps': dict(ret='ptr', alloc='jwt', routed=True,
+                       degrades='jansson 2.14 do_dump()/dump_string ignore a failed strbuffer growth: json_dumps then returns text with '
+                                'bytes missing (as success) instead of NULL'),
     'json_decref': dict(ret='void', free=('json', 0)),
     'json_incref': dict(ret='ptr'),
     'json_delete': dict(ret='void', free=('json', 0)),
@@ -152,9 +154,9 @@ SPEC = {
     'gnutls_pubkey_import_privkey': dict(ret='int', dom=(-1, 0)),
     'gnutls_privkey_get_pk_algorithm': dict(ret='int', pure=True),
     'gnutls_pubkey_get_pk_algorithm': dict(ret='int', pure=True),
-    'gnutls_privkey_sign_data': dict(ret='int', dom=(-1, 0), out=(4,), out_alloc_field={4: ('data', 'gnutls')}),
-    'gnutls_decode_rs_value': dict(ret='int', dom=(-1, 0), out=(1, 2)),
-    'gnutls_encode_rs_value': dict(ret='int', dom=(-1, 0), out=(0,)),
+    'gnutls_privkey_sign_data': dict(ret='int', dom=(-1, 0), out_alloc_field={4: (('data', 'gnutls'),)}),
+    'gnutls_decode_rs_value': dict(ret='int', dom=(-1, 0), out_alloc_field={1: (('data', 'gnutls'),), 2: (('data', 'gnutls'),)}),
+    'gnutls_encode_rs_value': dict(ret='int', dom=(-1, 0), out_alloc_field={0: (('data', 'gnutls'),)}),
     'gnutls_pubkey_verify_data2': dict(ret='int', dom=(-1, 0, 1)),
     'gnutls_free': dict(ret='void', free=('gnutls', 0)),
 }
@@ -249,6 +251,27 @@ def generic(name, spec):
         seq = st.sites.get(skey, 0) + 1
         st.sites[skey] = seq
         # out-parameters
+        oaf = spec.get('out_alloc_field', {})
+        if oaf:
+            # the library fills a caller-provided struct with a freshly allocated buffer (gnutls_datum_t.data) on success
+            s_ok = st.clone()
+            for p, flds in oaf.items():
+                if p < len(args) and isinstance(args[p], Ref):
+                    a = args[p]
+                    for fld, fam in flds:
+                        o = s_ok.newobj('%s.%s@%s' % (name, fld, site(node)))
+                        own_alloc(it, s_ok, fam, Ref(o), node, name)
+                        pth = (a.path + '.' if a.path else '') + fld
+                        it.store(s_ok, a.loc, pth, Ref(o))
+                        rule.on_store(it, s_ok, a.loc, pth, Ref(o), node)
+                        sz = Term(('out', name, p, 'size', site(node), seq))
+                        s_ok.cons[sz.k] = (('>=', 1),)
+                        it.store(s_ok, a.loc, (a.path + '.' if a.path else '') + 'size', sz)
+            api_event(s_ok, name, Int(0), args, node)
+            t_f = Term(('api', name, site(node), seq, 'fail'))
+            st.dom[t_f.k] = tuple(v for v in (spec.get('dom') or (-1,)) if v != 0) or (-1,)
+            api_event(st, name, t_f, args, node)
+            return [(s_ok, Int(0)), (st, t_f)]
         oa = spec.get('out_alloc', {})
         if oa and not spec.get('_noalloc'):
             # two outcomes: the library produced the object(s) / it failed and left the out-parameter alone
